@@ -1,6 +1,448 @@
+"""Monitors for the marker layer (C02, C07, C12, C14-markers, C15) and the shared marker driver."""
+from __future__ import annotations
+
+import itertools
+
+from . import monitor
+from .monitor import CaseTimeout, bump, install, oracle, violation
+from .workloads import markers as MW
+
+
+def classes():
+    import dep_logic.markers as M
+    import dep_logic.markers.single as single
+
+    return M, single
+
+
+def is_marker(x) -> bool:
+    from dep_logic.markers.base import BaseMarker
+
+    return isinstance(x, BaseMarker)
+
+
+def ev(m, env) -> bool:
+    return bool(m.evaluate(dict(env)))
+
+
+def mtext(m) -> str:
+    try:
+        return str(m)
+    except Exception as e:  # noqa: BLE001
+        return f"<str raised {type(e).__name__}>"
+
+
+def clear_caches():
+    """Empty the four process-wide lru_caches of the marker layer (history dependence is C10's
+    subject; strata that contain literal-on-the-left in/not in atoms are isolated from the others)."""
+    import dep_logic.markers as M
+    import dep_logic.markers.single as single
+    import dep_logic.utils as U
+
+    for fn in (M.parse_marker, single._merge_single_markers, U.cnf, U.dnf):
+        fn.cache_clear()
+
+
 def prepare(ctx):
-    pass
+    ctx.stratum = "main"
+    ctx.env_budget = 0
+    ctx.env_cap_top = 200 if ctx.tier == "quick" else 600
+    ctx.env_cap_inner = 24 if ctx.tier == "quick" else 40
+
+
+def stratum_flags(ctx):
+    s = getattr(ctx, "stratum", "main")
+    return {"prerelease": s == "prerelease", "str_extra_only": False}
+
+
+def equiv_check(ctx, prop, mon, what, operands, result, combine, *, cap, detail=None, envs=None):
+    """result.evaluate(env) must equal combine([op.evaluate(env) for op in operands]) on the critical
+    environments derived from the operands and the result. Returns number of environments decided."""
+    if envs is None:
+        envs = MW.environments(ctx.rnd, list(operands) + [result], cap, **stratum_flags(ctx))
+    n = 0
+    names = set()
+    for o in list(operands) + [result]:
+        names |= MW.names_of(o)
+    for env in envs:
+        try:
+            vals = [ev(o, env) for o in operands]
+        except CaseTimeout:
+            raise
+        except Exception:  # noqa: BLE001  operand not evaluable here: not this monitor's business
+            ctx.inconclusive["operand-evaluation-raised"] += 1
+            continue
+        exp = combine(vals)
+        try:
+            got = ev(result, env)
+        except CaseTimeout:
+            raise
+        except Exception as e:  # noqa: BLE001
+            violation(prop, mon, f"{what}: result.evaluate raised {type(e).__name__}",
+                      {"operands": [mtext(o) for o in operands], "result": mtext(result),
+                       "env": MW.env_brief(env, names), "stratum": ctx.stratum, **(detail or {})},
+                      live={"operands": list(operands), "result": result, "env": env})
+            return n
+        n += 1
+        if got != exp:
+            violation(prop, mon, what,
+                      {"operands": [mtext(o) for o in operands], "result": mtext(result),
+                       "result_type": type(result).__name__, "env": MW.env_brief(env, names),
+                       "operand_values": vals, "expected": exp, "got": got, "stratum": ctx.stratum,
+                       **(detail or {})},
+                      live={"operands": list(operands), "result": result, "env": env, "combine": combine})
+            return n
+    ctx.evaluations += n
+    return n
+
+
+# ------------------------------------------------------------------------------------------------
+# C02: semantic post-conditions on every combinator
+# ------------------------------------------------------------------------------------------------
+
+AND = all
+OR = any
+
+
+def install_c02(ctx, prop="C02"):
+    M, single = classes()
+    import dep_logic.markers.multi as multi
+    import dep_logic.markers.union as union
+    import dep_logic.utils as U
+
+    def cap():
+        # inner events are sampled once the per-case budget is used, so cost stays linear
+        if ctx.env_budget <= 0:
+            if ctx.rnd.random() > 0.15:
+                return 0
+            return 8
+        c = ctx.env_cap_inner
+        ctx.env_budget -= c
+        return c
+
+    def bin_post(name, comb):
+        def post(args, kwargs, r):
+            a, b = args[0], args[1]
+            if not (is_marker(a) and is_marker(b) and is_marker(r)):
+                return
+            c = cap()
+            if c:
+                equiv_check(ctx, prop, name, f"{name}: result does not evaluate as the {'conjunction' if comb is AND else 'disjunction'} of its operands",
+                            [a, b], r, comb, cap=c)
+        return post
+
+    def var_post(name, comb, skip_first=True):
+        def post(args, kwargs, r):
+            ops = list(args[1:] if skip_first else args)
+            if not ops or not all(is_marker(o) for o in ops) or not is_marker(r):
+                return
+            c = cap()
+            if c:
+                equiv_check(ctx, prop, name, f"{name}: result is not equivalent to the {'conjunction' if comb is AND else 'disjunction'} of the arguments",
+                            ops, r, comb, cap=c)
+        return post
+
+    def same_post(name):
+        def post(args, kwargs, r):
+            if not is_marker(r):
+                return
+            c = cap()
+            if c:
+                equiv_check(ctx, prop, name, f"{name}: result is not equivalent to its argument", [args[0]], r,
+                            lambda v: v[0], cap=c)
+        return post
+
+    def opt_post(name, comb):
+        def post(args, kwargs, r):
+            if r is None:
+                ctx.shape(f"path:{name}:none")
+                return
+            ctx.shape(f"path:{name}:simplified")
+            c = cap()
+            if c:
+                equiv_check(ctx, prop, name, f"{name}: simplification changed the meaning", [args[0], args[1]], r, comb, cap=c)
+        return post
+
+    def merge_post(name):
+        def post(args, kwargs, r):
+            m1, m2, cls = args[0], args[1], args[2]
+            comb = AND if cls is M.MultiMarker else OR
+            if r is None:
+                ctx.shape(f"path:{name}:none")
+                return
+            ctx.shape(f"path:{name}:{type(r).__name__}")
+            c = cap()
+            if c:
+                equiv_check(ctx, prop, name, f"{name}: merged atom is not equivalent to the pair it replaces",
+                            [m1, m2], r, comb, cap=c, detail={"merge": "and" if comb is AND else "or"})
+        return post
+
+    def replace_post(kind):
+        def post(args, kwargs, r):
+            self, values = args[0], list(args[1])
+            if not is_marker(r) or self.name == "extra":
+                return
+            ctx.shape(f"path:{kind}.replace:{type(r).__name__}")
+            for probe in values + ["§other"]:
+                env = {self.name: probe}
+                exp = (probe in values) if kind == "EqualityMarkerUnion" else (probe not in values)
+                ctx.evaluations += 1
+                if ev(r, env) != exp:
+                    violation(prop, f"{kind}.replace", "replace() result does not denote the given value set",
+                              {"name": self.name, "values": values, "result": mtext(r), "probe": probe, "stratum": ctx.stratum})
+                    return
+        return post
+
+    E, EQ, NE = single.MarkerExpression, single.EqualityMarkerUnion, single.InequalityMultiMarker
+    install(E, "__and__", bin_post("MarkerExpression.__and__", AND))
+    install(E, "__or__", bin_post("MarkerExpression.__or__", OR))
+    for cls in (EQ, NE, M.MultiMarker, M.MarkerUnion, M.AnyMarker, M.EmptyMarker):
+        n = cls.__name__
+        install(cls, "__and__", bin_post(n + ".__and__", AND), aliases=("__rand__",))
+        install(cls, "__or__", bin_post(n + ".__or__", OR), aliases=("__ror__",))
+    install(EQ, "replace", replace_post("EqualityMarkerUnion"))
+    install(NE, "replace", replace_post("InequalityMultiMarker"))
+    install(M.MultiMarker, "of", var_post("MultiMarker.of", AND))
+    install(M.MarkerUnion, "of", var_post("MarkerUnion.of", OR))
+    install(M.MultiMarker, "union_simplify", opt_post("MultiMarker.union_simplify", OR))
+    install(M.MarkerUnion, "intersect_simplify", opt_post("MarkerUnion.intersect_simplify", AND))
+    install(U, "cnf", same_post("cnf"))
+    install(U, "dnf", same_post("dnf"))
+    install(U, "intersection", var_post("intersection", AND, skip_first=False),
+            also=((multi, "intersection"), (union, "intersection")))
+    install(U, "union", var_post("union", OR, skip_first=False), also=((multi, "union"), (union, "union")))
+    install(single, "_merge_single_markers", merge_post("_merge_single_markers"))
+    install(single, "_merge_python_version_single_markers", merge_post("_merge_python_version_single_markers"))
+
+
+# ------------------------------------------------------------------------------------------------
+# C15: normal form at the public boundary
+# ------------------------------------------------------------------------------------------------
+
+def nf_defect(m, top=True):
+    M, single = classes()
+    if isinstance(m, (M.AnyMarker, M.EmptyMarker)):
+        return None if top else f"{type(m).__name__} as a child of a compound"
+    if isinstance(m, (single.EqualityMarkerUnion, single.InequalityMultiMarker)):
+        if len(m.values) < 2:
+            return f"{type(m).__name__} with {len(m.values)} value(s)"
+        return None
+    if isinstance(m, single.SingleMarker):
+        return None
+    if isinstance(m, (M.MultiMarker, M.MarkerUnion)):
+        if len(m.markers) < 2:
+            return f"{type(m).__name__} with {len(m.markers)} child(ren)"
+        seen = []
+        for c in m.markers:
+            if c in seen:
+                return f"duplicate child in {type(m).__name__}"
+            seen.append(c)
+        for c in m.markers:
+            if type(c) is type(m):
+                return f"{type(m).__name__} nested directly inside {type(m).__name__}"
+            d = nf_defect(c, False)
+            if d:
+                return d
+        return None
+    return f"unexpected marker type {type(m).__name__}"
+
+
+def normal_form_check(ctx, prop, where, m, origin=None):
+    bump("normal-form")
+    ctx.evaluations += 1
+    d = nf_defect(m)
+    M, single = classes()
+    if d is None:
+        try:
+            if not isinstance(m, M.EmptyMarker) and m.is_empty():
+                d = "is_empty() is true on a non-EmptyMarker result"
+            elif not isinstance(m, M.AnyMarker) and m.is_any():
+                d = "is_any() is true on a non-AnyMarker result"
+        except Exception as e:  # noqa: BLE001
+            d = f"is_empty/is_any raised {type(e).__name__}"
+    if d is not None:
+        violation(prop, where, "result is not in normal form: " + d,
+                  {"result": repr(m), "origin": origin, "defect": d, "stratum": getattr(ctx, "stratum", "main"),
+                   "group": d.split(" with ")[0][:40]},
+                  live={"result": m})
+    return d
+
+
+# ------------------------------------------------------------------------------------------------
+# C07: text round-trip of markers
+# ------------------------------------------------------------------------------------------------
+
+def marker_roundtrip_check(ctx, prop, where, m, origin=None, cap=40):
+    from packaging.markers import InvalidMarker as PkgInvalidMarker
+    from packaging.markers import Marker as PkgMarker
+
+    M, single = classes()
+    bump(where)
+    try:
+        text = str(m)
+    except Exception as e:  # noqa: BLE001
+        violation(prop, where, f"str() raised {type(e).__name__}", {"marker": repr(type(m)), "origin": origin})
+        return
+    if isinstance(m, (M.AnyMarker, M.EmptyMarker)):
+        exp = "" if isinstance(m, M.AnyMarker) else "<empty>"
+        back = M.parse_marker(text)
+        ctx.evaluations += 1
+        if text != exp or type(back) is not type(m):
+            violation(prop, where, "empty/universal marker does not render/parse back to itself",
+                      {"text": text, "back": repr(back), "origin": origin})
+        return
+    if "<empty>" in text:
+        violation(prop, where, "`<empty>` appears inside a larger marker", {"text": text, "origin": origin, "group": "empty-inside"},
+                  live={"marker": m})
+        return
+    try:
+        back = M.parse_marker(text)
+    except CaseTimeout:
+        raise
+    except Exception as e:  # noqa: BLE001
+        violation(prop, where, f"parse_marker(str(m)) raised {type(e).__name__}",
+                  {"text": text, "error": str(e)[:200], "origin": origin, "group": "reparse"}, live={"marker": m})
+        return
+    try:
+        PkgMarker(text)
+    except PkgInvalidMarker as e:
+        violation(prop, where, "str(m) is rejected by packaging.markers.Marker",
+                  {"text": text, "error": str(e)[:200], "origin": origin, "group": "pkg-reject"}, live={"marker": m})
+        return
+    if "(" in text or isinstance(m, (single.EqualityMarkerUnion, single.InequalityMultiMarker)) or any(
+            isinstance(a, (single.EqualityMarkerUnion, single.InequalityMultiMarker)) for a in MW.walk_atoms(m)):
+        ctx.nontrivial("rt", text)
+    equiv_check(ctx, prop, where, "re-parsed text evaluates differently from the marker", [m], back, lambda v: v[0],
+                cap=cap, detail={"text": text, "reparsed": mtext(back), "origin": origin})
+
+
+# ------------------------------------------------------------------------------------------------
+# shared driver: marker trees evaluated through the monitored public API
+# ------------------------------------------------------------------------------------------------
+
+def eval_marker_tree(ctx, tree, on_node, *, prop, watchdog=5.0):
+    """on_node(t, value, child_values) is called under oracle() for every node."""
+    stack = []
+
+    def hook(t, v):
+        n = {"and": 2, "or": 2, "only": 1, "exclude": 1, "noextras": 1, "str": 1}.get(t[0], 0)
+        kids = stack[len(stack) - n:] if n else []
+        if n:
+            del stack[len(stack) - n:]
+        stack.append(v)
+        if on_node is not None:
+            with oracle():
+                on_node(t, v, kids)
+
+    def go():
+        try:
+            return MW.build(tree, hook)
+        except CaseTimeout:
+            raise
+        except Exception as e:  # noqa: BLE001
+            violation(prop, "tree-eval", f"public operation raised {type(e).__name__}",
+                      {"tree": MW.tree_text(tree)[:500], "error": str(e)[:200], "stratum": ctx.stratum,
+                       "group": type(e).__name__})
+            return None
+
+    ctx.env_budget = ctx.env_cap_top
+    ok, root = ctx.guarded(watchdog, go)
+    return root if ok else None
+
+
+def gen_marker_tree(rnd, cfg, max_atoms, closure=None, ops=("and", "or"), unary_p=0.0):
+    a, b = MW.gen_pair(rnd, cfg, max_atoms)
+    ta, tb = ["m", a], ["m", b]
+    if closure and rnd.random() < 0.3:
+        c = rnd.choice(closure)
+        if MW.tree_atoms(c) + MW.n_atoms(b) <= max_atoms:
+            ta = c
+    k = rnd.random()
+    if k < 0.03:
+        tb = [rnd.choice(["any", "empty"])]
+    t = [rnd.choice(ops), ta, tb]
+    if rnd.random() < 0.12:
+        t = ["str", t]
+    return t
+
+
+# ------------------------------------------------------------------------------------------------
+# C14 (marker part)
+# ------------------------------------------------------------------------------------------------
+
+def marker_laws(a, b, c):
+    yield "commutative-and", lambda: a & b, lambda: b & a
+    yield "commutative-or", lambda: a | b, lambda: b | a
+    yield "associative-and", lambda: (a & b) & c, lambda: a & (b & c)
+    yield "associative-or", lambda: (a | b) | c, lambda: a | (b | c)
+    yield "idempotent-and", lambda: a & a, lambda: a
+    yield "idempotent-or", lambda: a | a, lambda: a
+    yield "absorption-and", lambda: a & (a | b), lambda: a
+    yield "absorption-or", lambda: a | (a & b), lambda: a
+    yield "distributive-and", lambda: a & (b | c), lambda: (a & b) | (a & c)
+    yield "distributive-or", lambda: a | (b & c), lambda: (a | b) & (a | c)
+    yield "identity-and", lambda: a & type_any()(), lambda: a
+    yield "identity-or", lambda: a | type_empty()(), lambda: a
+
+
+def type_any():
+    return classes()[0].AnyMarker
+
+
+def type_empty():
+    return classes()[0].EmptyMarker
+
+
+def _law_case(ctx, prop):
+    M, single = classes()
+
+    def per_case(texts):
+        ms = [M.parse_marker(t) for t in texts]
+        a, b, c = ms
+        if len({str(x) for x in ms}) == 3 and not any(x.is_any() or x.is_empty() for x in ms):
+            ctx.nontrivial("marker", *texts)
+            if sum(1 for s in ctx.samples if isinstance(s, dict) and s.get("kind") == "marker-triple") < 3:
+                ctx.samples.append({"kind": "marker-triple", "a": texts[0], "b": texts[1], "c": texts[2]})
+        for name, lf, rf in marker_laws(a, b, c):
+            bump("marker-law")
+            try:
+                lhs, rhs = lf(), rf()
+            except CaseTimeout:
+                raise
+            except Exception as e:  # noqa: BLE001
+                violation(prop, "marker-law", f"law {name}: raised {type(e).__name__}",
+                          {"a": texts[0], "b": texts[1], "c": texts[2], "error": str(e)[:160], "group": name})
+                continue
+            with oracle():
+                envs = MW.environments(ctx.rnd, [a, b, c, lhs, rhs], 60 if ctx.tier == "quick" else 150)
+                equiv_check(ctx, prop, "marker-law", f"law {name}: the two sides evaluate differently", [lhs], rhs,
+                            lambda v: v[0], cap=0, envs=envs,
+                            detail={"a": texts[0], "b": texts[1], "c": texts[2], "lhs": mtext(lhs), "rhs": mtext(rhs), "group": name})
+    return per_case
+
+
 def run_marker_laws(ctx, prop):
-    pass
+    prepare(ctx)
+    rnd = ctx.rnd
+    cfg = MW.Cfg()
+    n = 250 if ctx.tier == "quick" else 4000
+    per = _law_case(ctx, prop)
+    t_end = ctx.elapsed() + (14 if ctx.tier == "quick" else 130)
+    for i in range(n):
+        if ctx.elapsed() > t_end:
+            ctx.extra["marker_laws_stopped_by_time_budget_after"] = i
+            break
+        sv = rnd.sample(MW.STRVARS, rnd.randint(1, 2))
+        sl = rnd.sample(MW.STRLIT, rnd.randint(2, 3))
+        texts = [MW.text(rnd, cfg, rnd.choice([0, 0, 1]), sv, sl) for _ in range(3)]
+        if sum(map(MW.n_atoms, texts)) > (6 if ctx.tier == "quick" else 7):
+            continue
+        ctx.cases += 1
+        ctx.current_case = {"kind": "marker-triple", "texts": texts}
+        ctx.guarded(8.0 if ctx.tier == "quick" else 20.0, per, texts)
+    ctx.current_case = None
+
+
 def replay_marker_law(ctx, prop, case):
-    pass
+    prepare(ctx)
+    _law_case(ctx, prop)(case["texts"])
